@@ -236,6 +236,10 @@ STD_OPAQUE = {
 }
 
 
+# Opaque repo callees that return a value of the same pytree type as their data argument.
+SAME_TYPE_CALLS = {'clip_wavenumbers', 'to_modal', 'to_nodal', 'with_dycore_sharding', 'with_physics_sharding', 'tree_map_over_nonscalars'}
+
+
 class Options:
   """Per-analysis policy."""
 
@@ -1469,7 +1473,12 @@ class Evaluator:
     if fi.qualname == 'dinosaur.spherical_harmonic._with_vertical_padding' and self.opt.model_vertical_padding and args:
       return args[0]
     if is_abstract(fi) or not self.opt.may_inline(fi) or not self.can_enter(fi, ctx):
-      return mk_call(opaque_term, args, kwargs, cls=self.return_class(fi), loc=loc)
+      rc = self.return_class(fi)
+      if rc is None and fi.name in SAME_TYPE_CALLS:
+        data = [x for x in args if not (fi.cls is not None and x is args[0])]
+        if data and data[0].cls is not None:
+          rc = data[0].cls
+      return mk_call(opaque_term, args, kwargs, cls=rc, loc=loc)
     return self.invoke(fi, args, kwargs, ctx, node, cenv=cenv, opaque_term=opaque_term)
 
   def invoke(self, fi, args, kwargs, ctx, node, cenv=None, opaque_term=None):
